@@ -20,7 +20,9 @@
 (*  items only directly under lists, table rows/captions only under tables,   *)
 (*  cells only under rows; per-kind argument shape as documented in the       *)
 (*  NodeKind / WikiNode docstrings of parser.py; no private-use placeholder   *)
-(*  character (U+10203D..U+10FFF0) anywhere.                                   *)
+(*  character (U+10203D..U+10FFF0) anywhere (sarg, argument fields, attrs,    *)
+(*  children, definition); no two adjacent strings inside an argument field   *)
+(*  either (fault "adjacent-strings-in-argument").                            *)
 EXTENDS Naturals, Sequences, FiniteSets
 
 MagicFirst == 1056829        \* U+10203D  (MAGIC_NOWIKI_CHAR, first of the reserved range)
@@ -68,8 +70,16 @@ ListFaults(lst, pk, strict, i) ==
         ELSE IF IsNode(c) THEN NodeFaults(c, pk)
         ELSE {"child-neither-string-nor-node"})
        \cup ListFaults(lst, pk, strict, i + 1)
+\* (round 9) the clause "no two adjacent strings" holds INSIDE every argument field too: an argument is
+\* the children list collected so far, merged (_parser_merge_str_children) before it is moved to largs
+RECURSIVE ArgAdjacent(_, _)
+ArgAdjacent(lst, i) ==
+  IF i > Len(lst) THEN {}
+  ELSE (IF IsStrChild(lst[i]) /\ IsStrChild(lst[i - 1]) THEN {"adjacent-strings-in-argument"} ELSE {}) \cup ArgAdjacent(lst, i + 1)
 RECURSIVE ArgsFaults(_, _)
-ArgsFaults(n, k) == IF k > Len(n.largs) THEN {} ELSE ListFaults(n.largs[k], n.k, FALSE, 1) \cup ArgsFaults(n, k + 1)
+ArgsFaults(n, k) ==
+  IF k > Len(n.largs) THEN {}
+  ELSE ListFaults(n.largs[k], n.k, FALSE, 1) \cup ArgAdjacent(n.largs[k], 2) \cup ArgsFaults(n, k + 1)
 RECURSIVE AttrFaults(_, _)
 AttrFaults(n, j) ==
   IF j > Len(n.attrs) THEN {}
